@@ -93,17 +93,16 @@ func (t *Dense) Norm(ord NormOrder, axes ...int) (retVal *Dense, err error) {
 	// simple case
 	if len(axes) == 0 {
 		if ord.IsUnordered() || (ord.IsFrobenius() && dims == 2) || (ord == Norm(2) && dims == 1) {
-			backup := t.AP
-			ap := makeAP(1)
-			defer ap.zero()
-
-			ap.unlock()
-			ap.SetShape(t.Size())
-			ap.lock()
-
-			t.AP = ap
-			ret, err = Dot(t, t) // returns a scalar
-			t.AP = backup
+			// the elements are folded as one flat vector - through a second header over t's
+			// storage, so that t itself (which other goroutines may be reading) is not touched
+			flat := t.ShallowClone()
+			defer ReturnTensor(flat)
+			flat.UT()
+			if err = flat.reshape(t.Size()); err != nil {
+				err = errors.Wrapf(err, opFail, "Norm-0")
+				return
+			}
+			ret, err = Dot(flat, flat) // returns a scalar
 			if err != nil {
 				err = errors.Wrapf(err, opFail, "Norm-0")
 				return
